@@ -162,6 +162,7 @@ class Exec:
         self.steps = []
         self.root = None
         self.nav_errors = []
+        self.foreign_owner = {}
 
     # -- identity labels
     def see(self, obj):
@@ -255,6 +256,25 @@ class Exec:
                 el = cls() if a.get("blank") else cls(py(a["new"]))
             except Exception as e:  # the constructor raised: no element to hand over
                 raise Skip("argerr:" + exc_name(e))
+            if a.get("foreign"):
+                # the element currently belongs to ANOTHER container of the target's class: really stored in it
+                # where adoption is the documented route (SparseDict key, sequence append), else built with
+                # parent=<that container>
+                other = type(target)()
+                self.keep.append(other)
+                placed = False
+                try:
+                    if kind_of_element(target) == "sparse" and key is not None and isinstance(el, need):
+                        other[key] = el
+                        placed = dict.get(other, key) is el
+                    elif is_seq(target):
+                        other.append(el)
+                        placed = True
+                except Exception:
+                    placed = False
+                if not placed or el.parent is None:
+                    el.parent = other     # same state as `cls(value, parent=other)`
+                self.foreign_owner[id(el)] = other
             return ("elem", el)
         raise ValueError("bad arg %r" % (a,))
 
@@ -327,6 +347,18 @@ class Exec:
                     target.update(py(op["pos"]), **kw)
                 else:
                     target.update(**kw)
+                return "ok"
+            if name == "update_items":
+                keys = [k for k, _ in op["items"]]
+                form = op.get("form", "dict")
+                if form == "pairs":
+                    target.update(list(zip(keys, vals)))
+                elif form == "kw":
+                    target.update(**dict(zip(keys, vals)))
+                elif form == "ior":
+                    operator.ior(target, dict(zip(keys, vals)))
+                else:
+                    target.update(dict(zip(keys, vals)))
                 return "ok"
             if name == "ior":
                 operator.ior(target, py(op["v"])); return "ok"
@@ -460,7 +492,10 @@ class Exec:
             elif "as" in op:
                 specs = op["as"]
             key = op.get("k") if kind == "map" else None
-            args = [self.mk_arg(target, key, a) for a in specs]
+            if "items" in op:
+                args = [self.mk_arg(target, k, a) for k, a in op["items"]]
+            else:
+                args = [self.mk_arg(target, key, a) for a in specs]
         except Skip as s:
             self.pool = saved_pool
             info["out"] = {"skip": str(s)}
@@ -590,6 +625,8 @@ def gen_arg(rng, member, p_elem=0.3, p_pool=0.15, valid=True, cid=None):
         a = {"new": v}
         if rng.random() < 0.15:
             a["blank"] = True
+        if rng.random() < 0.4:
+            a["foreign"] = True      # the element currently belongs to another container
         return a
     return {"v": v}
 
@@ -646,6 +683,7 @@ def gen_seq_op(rng, member, valid=True):
 
 
 MAP_OPS = ["setitem", "setitem", "setitem", "delitem", "pop", "popitem", "clear", "update", "update", "ior",
+           "update_items", "update_items",
            "setdefault", "get", "set", "set", "set_default", "contains", "len"]
 
 
@@ -674,6 +712,18 @@ def gen_map_op(rng, s, valid=True):
         if "new" in op["a"] and rng.random() < 0.1:
             op["a"]["rename"] = rng.choice(["zz", "q"])
             op["a"]["cid"] = 100000 + rng.randint(0, 10 ** 6)
+    elif name == "update_items":
+        # update(dict) / update(**kw) / update(pairs) / |= whose values are ready-made Elements or plain values
+        form = rng.choice(["dict", "kw", "pairs", "ior"])
+        items = []
+        for _ in range(rng.choice([1, 1, 2, 3])):
+            k = gen_key(rng, fields, 0.1)
+            f = byname.get(k, fields[0] if fields else None)
+            items.append([k, gen_arg(rng, f, p_elem=0.6, p_pool=0.1, valid=valid)])
+        if form != "pairs":
+            items = _dedupe(items)
+        op["form"] = form
+        op["items"] = items
     elif name in ("delitem", "pop", "get", "contains"):
         op["k"] = gen_key(rng, fields, 0.25)
     elif name == "update":
@@ -738,6 +788,11 @@ def shrink_history(case):
                 for j in range(len(op["as"])):
                     c = copy.deepcopy(case)
                     del c["ops"][i][part]["as"][j]
+                    yield c
+            if "items" in op and len(op["items"]) > 1:
+                for j in range(len(op["items"])):
+                    c = copy.deepcopy(case)
+                    del c["ops"][i][part]["items"][j]
                     yield c
             if part == "m" and "s" in o:
                 c = copy.deepcopy(case)
